@@ -509,14 +509,25 @@ func checkC03(w *World, r *Report) {
 	for f := range w.parseReachable() {
 		reach[f] = true
 	}
+	// … and everything that decides which source a template name denotes: Engine.Load, the
+	// methods of the package's Loader implementations and the functions that construct them (a
+	// search-path list put in map order at construction time makes name resolution differ from
+	// one process to the next)
+	loopReach := map[*ssa.Function]bool{}
+	for f := range reach {
+		loopReach[f] = true
+	}
+	for f := range w.reachableFrom(w.loaderRoots()) {
+		loopReach[f] = true
+	}
 	nLoops := 0
 	for _, fd := range w.sortedDecls() {
 		obj := w.Info.Defs[fd.Name].(*types.Func)
 		sf := w.ssaFunc(obj)
-		inReach := reach[sf]
+		inReach := loopReach[sf]
 		if !inReach {
 			for _, a := range sf.AnonFuncs {
-				if reach[a] {
+				if loopReach[a] {
 					inReach = true
 				}
 			}
@@ -548,6 +559,7 @@ func checkC03(w *World, r *Report) {
 	r.floor("map-ordered loops on render paths", nLoops, 15)
 
 	checkKeyComparators(w, r)
+	checkSingleCriterionComparators(w, r)
 
 	// ---- R03.2
 	exempt := map[string]string{
@@ -751,4 +763,48 @@ func (w *World) onlyFeedsLogger(f *types.Func) bool {
 		})
 	}
 	return ok && n > 0
+}
+
+// loaderRoots: Engine.Load, the Loader / TimestampAwareLoader methods of every type of the
+// package that implements Loader, and every package-level function that returns such a type.
+func (w *World) loaderRoots() []*ssa.Function {
+	_, sp := w.ssa()
+	iface, ok := w.named("Loader").Underlying().(*types.Interface)
+	if !ok {
+		cannotDecide("anchor Loader is not an interface")
+	}
+	roots := []*ssa.Function{w.ssaFunc(w.method("Engine", "Load"))}
+	ifaceMethod := map[string]bool{}
+	for i := 0; i < iface.NumMethods(); i++ {
+		ifaceMethod[iface.Method(i).Name()] = true
+	}
+	if ta, ok := w.named("TimestampAwareLoader").Underlying().(*types.Interface); ok {
+		for i := 0; i < ta.NumMethods(); i++ {
+			ifaceMethod[ta.Method(i).Name()] = true
+		}
+	}
+	isLoader := func(t types.Type) bool {
+		if _, isI := t.Underlying().(*types.Interface); isI {
+			return false
+		}
+		return types.Implements(t, iface) || types.Implements(types.NewPointer(t), iface)
+	}
+	for _, fn := range w.pkgFuncs() {
+		if fn.Parent() != nil || fn.Synthetic != "" || fn.Pkg != sp {
+			continue
+		}
+		if recv := fn.Signature.Recv(); recv != nil {
+			if isLoader(deref(recv.Type())) && ifaceMethod[fn.Name()] {
+				roots = append(roots, fn)
+			}
+			continue
+		}
+		res := fn.Signature.Results()
+		for i := 0; i < res.Len(); i++ {
+			if isLoader(deref(res.At(i).Type())) {
+				roots = append(roots, fn)
+			}
+		}
+	}
+	return roots
 }
